@@ -124,6 +124,12 @@ func allSpecs() map[string]*PropSpec {
 		NotDecided:  "idempotence as an equation on outputs; that all amounts start in the common column for every input (value-level).",
 		Rules:       fmtRules,
 	})
+	add(&PropSpec{
+		ID:          "C07",
+		Explanation: "L-NEWLINE (abstract interpretation of the lexer over byte classes, all calling contexts from Lexer.Next): at every position-advancing site outside the newline scanner the current byte cannot be '\\n', and the line counter / line-start flag are written only by the newline scanner (so no token spans a line break and the token sequence of a line depends only on that line's bytes). L-PROGRESS as in C06.",
+		NotDecided:  "equality of the two parses outside the damaged entry as values.",
+		Rules:       []func(*Ctx){ruleLexer, ruleParser},
+	})
 	return m
 }
 
